@@ -106,6 +106,17 @@ def check_obligations(prop, st, tier="quick"):
         # independent re-check of the compiled property files and everything they depend on
         mods = ["GT." + f[:-2].replace("/", ".") for f in files]
         rc, out = build.sh(["coqchk", "-silent", "-o", "-Q", ".", "GT"] + mods, cwd=build.COQ, timeout=3400)
+        if rc != 0:
+            # compiled files may have been rewritten by a concurrent build while they were being read:
+            # bring the build up to date and re-check once, this time holding the build lock
+            import fcntl
+            lock = open(os.path.join(build.BUILD, ".lock"), "w")
+            fcntl.flock(lock, fcntl.LOCK_EX)
+            try:
+                build.sh(["bash", "-c", "ulimit -v 16000000; exec timeout 3000 make -k -j16 COQC='timeout 900 coqc'"], cwd=build.COQ, timeout=3100)
+                rc, out = build.sh(["coqchk", "-silent", "-o", "-Q", ".", "GT"] + mods, cwd=build.COQ, timeout=3400)
+            finally:
+                fcntl.flock(lock, fcntl.LOCK_UN)
         m = re.search(r"\* Axioms:(.*?)\n\s*\n\* Constants", out, flags=re.S)
         res["coqchk"] = {"rc": rc, "axioms": (m.group(1).strip() if m else "?"), "tail": out[-600:]}
         res["checker_cmd"] += " ; coqchk -silent -o -Q . GT " + " ".join(mods)
